@@ -219,6 +219,10 @@ func (t *Template) lookupAndEscapeTemplate(name string) (tmpl *Template, err err
 // prefixed by the string "; defined templates are: ". If there are none,
 // it returns the empty string. Used to generate an error message.
 func (t *Template) DefinedTemplates() string {
+	// text/template inspects the parse trees of all associated templates, which a concurrent
+	// first execution may be rewriting or, if it cannot be escaped, emptying.
+	t.nameSpace.mu.Lock()
+	defer t.nameSpace.mu.Unlock()
 	return t.text.DefinedTemplates()
 }
 
